@@ -218,6 +218,29 @@ pub fn module_items() -> Vec<Item> {
     v
 }
 
+/// Type items: a TYPE import whose definition is an instance or component type (what a WIT
+/// package exports for an interface / world). The item's `wat` starts with `TYPEOF:` followed by
+/// the type body; `decode_items` defines the type and imports `(type (eq ..))`.
+pub fn type_items() -> Vec<Item> {
+    let bodies: Vec<(&str, &str)> = vec![
+        ("type=inst{}", "(instance)"),
+        ("type=inst{f}", "(instance (export \"f\" (func)))"),
+        ("type=inst{g}", "(instance (export \"g\" (func)))"),
+        ("type=inst{f,g}", "(instance (export \"f\" (func)) (export \"g\" (func)))"),
+        ("type=inst{f(x:u8)}", "(instance (export \"f\" (func (param \"x\" u8))))"),
+        ("type=inst{i:inst{f}}", "(instance (export \"i\" (instance (export \"f\" (func)))))"),
+        ("type=comp{}", "(component)"),
+        ("type=comp{imp f}", "(component (import \"f\" (func)))"),
+        ("type=comp{imp f,g}", "(component (import \"f\" (func)) (import \"g\" (func)))"),
+        ("type=comp{exp e}", "(component (export \"e\" (func)))"),
+        ("type=comp{exp e,d}", "(component (export \"e\" (func)) (export \"d\" (func)))"),
+        ("type=comp{imp f;exp e}", "(component (import \"f\" (func)) (export \"e\" (func)))"),
+        ("type=u8", "u8"),
+        ("type=list-u8", "(list u8)"),
+    ];
+    bodies.iter().map(|(tag, b)| it("type-item", tag, &format!("TYPEOF:{b}"))).collect()
+}
+
 pub struct Decoded {
     pub bytes: Vec<u8>,
     pub types: Types,
@@ -227,7 +250,10 @@ pub struct Decoded {
 fn decode_items(items: &[Item]) -> Result<Decoded, String> {
     let mut wat = String::from("(component\n");
     for (i, item) in items.iter().enumerate() {
-        wat.push_str(&format!("  (import \"a{i}\" {})\n", item.wat));
+        match item.wat.strip_prefix("TYPEOF:") {
+            Some(body) => wat.push_str(&format!("  (type $ty{i} {body})\n  (import \"a{i}\" (type (eq $ty{i})))\n")),
+            None => wat.push_str(&format!("  (import \"a{i}\" {})\n", item.wat)),
+        }
     }
     wat.push(')');
     let bytes = wat::parse_str(&wat).map_err(|e| format!("harness wat error: {e}"))?;
@@ -498,6 +524,7 @@ pub fn run(ctx: &mut Ctx) {
         ("instance", instance_items()),
         ("component", component_items()),
         ("module", module_items()),
+        ("type-item", type_items()),
         ("mixed", {
             let mut v = Vec::new();
             v.extend(func_items().into_iter().take(3));
